@@ -34,7 +34,7 @@
    The unconditional statement (without `steady`) is FALSE: Proofs/DeviceDeadlineEx.v (deadline_unsteady_refuted: flapping device).
    Hang (the model's loop fuel): excluded outright where the head is past its deadline (a), (b); elsewhere the statements are of
    the form  match .. with Ok .. => .. | Hang _ => True | _ => False end  or assume Ok, and DeviceFuel.post_poll_one_no_hang
-   excludes Hang under its potential bound (Psi < 4096, nesting < 8). *)
+   excludes Hang when blocks nest less than 8 deep (the loop fuel is the potential of the queue: Proofs/DeviceHang.v). *)
 From Coq Require Import List NArith ZArith Bool Lia.
 From PM Require Import Base.Bytes Base.Outcome Base.Dec Gen.GenConsts Gen.GenCbuf Model.ScriptAst Model.Enqueue Model.Script Model.Device
   Proofs.DeviceProofs Proofs.DeviceStmt Proofs.DeviceStmtG Proofs.DeviceInv Proofs.DeviceInvG Proofs.DeviceMask.
@@ -412,7 +412,7 @@ Section Deadline.
         rewrite (nolog_unconnected d I) by (rewrite Hc; discriminate). rewrite En, Ea1. reflexivity.
   Qed.
 
-  Lemma fuel_S : Nat.mul 64 64 = S 4095.
+  Lemma fuel_S d : pa_fuel d = S (S (psi d)).
   Proof. reflexivity. Qed.
 
   Lemma process_action_empty f now d store tmo plans acc : dv_acts d = [] ->
@@ -469,12 +469,12 @@ Section Deadline.
     rewrite E in *. pose proof (pp_front_shape now d tmo pin d3 t3 pl e12 I Hp E) as FS.
     destruct S3 as (_ & ET & _).
     destruct (front_bound now d d3 FS ET HT Hs) as (Hs3 & B3).
-    pose proof (process_action_bound (Nat.mul 64 64) now d3 store t3 pl e12 I3 P3 R3 ltac:(lia) Hs3) as HB.
+    pose proof (process_action_bound (pa_fuel d3) now d3 store t3 pl e12 I3 P3 R3 ltac:(lia) Hs3) as HB.
     assert (HX : forall act0 rest, dv_acts d3 = act0 :: rest -> hstamp now act0 + dv_timeout d3 <= now ->
-                 match process_action rmatch compress sc (Nat.mul 64 64) now d3 store t3 pl e12 with
+                 match process_action rmatch compress sc (pa_fuel d3) now d3 store t3 pl e12 with
                  | Ok (d', _, _, _, _) => queued d' = [] /\ flushed_q (dv_acts d') | Hang _ => True | _ => False end).
     { intros act0 rest Ea Hl. rewrite fuel_S. eapply process_action_expired; eauto. }
-    destruct (process_action rmatch compress sc (Nat.mul 64 64) now d3 store t3 pl e12) as [[[[[d4 st4] t4] pl4] e4]| | | |]; try contradiction; [|exact Logic.I].
+    destruct (process_action rmatch compress sc (pa_fuel d3) now d3 store t3 pl e12) as [[[[[d4 st4] t4] pl4] e4]| | | |]; try contradiction; [|exact Logic.I].
     destruct HG as [SP _]. destruct HB as (S4 & HB). split; [exact S4|].
     pose proof (tg_fifo _ _ _ _ _ _ _ _ _ SP) as FF. split; [exact FF|].
     destruct (queued d4) as [|c0 cs] eqn:Q4; [left; reflexivity|right].
@@ -621,7 +621,7 @@ Section Deadline.
     pose proof (post_poll_one_inv_pre rmatch compress sc now d store tmo pin I Hp Hrc) as HG.
     destruct (pp_front_inv compress now d tmo pin I Hp Hrc) as (d3' & t3' & pl' & e12' & E' & I3 & S3 & P3 & R3).
     rewrite E in E'. injection E' as <- <- <- <-. destruct S3 as (_ & ET & _).
-    destruct (process_action_expired_ok 4095 now d3 store t3 pl e12 a r I3 P3 Ea3 ltac:(rewrite ET; exact Hl)) as (d4 & t4 & pl4 & e4 & EPA & _ & Q & F).
+    destruct (process_action_expired_ok (S (psi d3)) now d3 store t3 pl e12 a r I3 P3 Ea3 ltac:(rewrite ET; exact Hl)) as (d4 & t4 & pl4 & e4 & EPA & _ & Q & F).
     rewrite <- fuel_S in EPA. unfold flushes. rewrite pp_split in *. rewrite E, EPA in *.
     destruct HG as [SP _]. pose proof (tg_fifo _ _ _ _ _ _ _ _ _ SP) as FF. rewrite Q, app_nil_r in FF.
     eexists _, _, _, _. split; [reflexivity|]. auto.
